@@ -789,7 +789,7 @@ spif_dlinked_list_insert_at(spif_dlinked_list_t self, spif_obj_t obj, spif_listi
 
     if (idx == 0) {
         return spif_dlinked_list_prepend(self, obj);
-    } else if (idx == (self->len - 1)) {
+    } else if (idx == self->len) {
         return spif_dlinked_list_append(self, obj);
     } else if (idx > self->len) {
         for (i = self->len; i < idx; i++) {
